@@ -57,6 +57,15 @@ def run(rep: Report, tier: str) -> None:
 					if mname == 'combine' and isinstance(v, ast.Dict):
 						spreads = [unparse(x) for k, x in zip(v.keys, v.values) if k is None]
 						ra.check(len(spreads) == 2 and spreads[1].startswith('other.'), key + ':right-wins', (DI_PY, n.lineno), f'combine must spread the right operand last so its bindings win; spreads are {spreads}', unparse(n))
+			# a clone is a new container: it starts from the operands' *bindings* only. Any other store of the class (per-container records such as the
+			# first-invocation memo, which also gates the one-time signature check) must not be carried over, or the clone behaves according to its operand's history
+			other_stores = set(st[cls.name]) - set(binding_stores[cls.name])
+			if cls is lazy:
+				other_stores |= set(st['DI']) - set(binding_stores['DI'])
+			for b, a, v, n in ef.assigns:
+				if b in newvars and a in other_stores:
+					ra.violate(f'{cls.name}.{mname}:carries {a}', (DI_PY, n.lineno), f'{cls.name}.{mname} copies the per-container store {a} into the new container: the clone inherits its operand\'s history (e.g. which factories already passed the first-call signature check), so a mismatched invoke on the combined container is no longer rejected with ValueError', unparse(n))
+			ra.ok(f'{cls.name}.{mname}:bindings-only', f.where)
 			# neither operand is mutated in place
 			for b, a, n in ef.adds + ef.dels:
 				if b in ('self', 'other'):
